@@ -112,16 +112,23 @@ def shape_run(ctx, shape):
     if rep["nodes"] != r.distinct:
         raise ToolError(f"{model}: dump has {rep['nodes']} states, TLC found {r.distinct}")
     want = min(rep["edges"], shape.get("sample") or rep["edges"])
-    if rep["covered"] < want or rep["edges"] < r.distinct:
-        raise ToolError(f"{model}: {rep['covered']} of {want} transitions replayed ({rep['edges']} dumped)")
-    if shape.get("witness"):
-        missing = [x for x in NEED_LABELS if x not in rep["act_hist"]]
-        if missing:
-            raise ToolError(f"vacuity: {model}: action classes never replayed: {missing}")
+    if rep["edges"] < r.distinct:
+        raise ToolError(f"{model}: only {rep['edges']} transitions dumped for {r.distinct} states")
+    # a divergence ends its walk and cuts the transition off the graph: transitions that can only be
+    # reached through diverging ones are not replayed.  That is a consequence of a violation, and a
+    # tool error only if nothing (new) diverged.
+    short = rep["covered"] < want
     fps = rep.pop("all_fingerprints")
     rep["divergences"] = []          # classified below from the complete list
     ctx.replay_report(model, rep)
+    nviol = len(ctx.violations)
     classify_all(ctx, model, fps.keys(), {k: v["example"] for k, v in fps.items()})
+    if short and len(ctx.violations) == nviol:
+        raise ToolError(f"{model}: {rep['covered']} of {want} transitions replayed ({rep['edges']} dumped)")
+    if shape.get("witness"):
+        missing = [x for x in NEED_LABELS if x not in rep["act_hist"]]
+        if missing and len(ctx.violations) == nviol:
+            raise ToolError(f"vacuity: {model}: action classes never replayed: {missing}")
     os.remove(r.out_path)
 
     # ---- (resp) responder cases
